@@ -4,7 +4,7 @@ import math
 
 KINDS = ["PL", "BTF", "BTP", "TMF", "TMP"]
 BETA0 = 25.0 / 6.0
-GAMMAS = ["gd", "gd", "gd", "gd", "gc:" + (0.0).hex(), "gc:" + (1.0).hex(), "gc:" + (3.7).hex(), "gk", "gr", "gt"]
+GAMMAS = ["gd", "gd", "gd", "gd", "gc:" + (0.0).hex(), "gc:" + (1.0).hex(), "gc:" + (3.7).hex(), "gc:" + (20.0).hex(), "gk", "gr", "gt", "gm", "gp"]
 
 
 def logu(rng, a, b):
@@ -22,6 +22,9 @@ def gen_state(rng, scale=None, default_bias=0.4):
     tau = rng.choice([0.0, 1e-9 * beta, beta / 50.0, beta / 50.0, 3.0 * beta, rng.uniform(0, 2) * beta])
     st = {"mu": 25.0 * k, "sigma": 25.0 / 3.0 * k, "beta": beta, "kappa": kappa, "tau": tau,
           "gamma": rng.choice(GAMMAS), "limit": rng.random() < 0.3}
+    if rng.random() < 0.06:
+        # model parameters given as Python ints (the constructor float()s mu, sigma, kappa, tau but keeps beta as given)
+        st.update(mu=25, sigma=8, beta=rng.choice([4, 1, 2, 10]), tau=rng.choice([0, 1, 2]))
     r = rng.random()
     if r < 0.10:
         st["ctor"] = "setattr"      # parameters assigned after construction instead of passed to the constructor
